@@ -263,7 +263,7 @@ func registryFacts(s *src, f *facts) {
 			}
 		}
 	}
-	f.b("rgRegisterAtomic", atomic, s.pos(ins))
+	f.b("rgRegisterAtomic", atomic && directStmt(sb, ins), s.pos(ins))
 	// the deferred unregister
 	var unreg *ast.FuncLit
 	var unregDefer *ast.DeferStmt
@@ -291,7 +291,7 @@ func registryFacts(s *src, f *facts) {
 	if sb != nil && len(sb.List) > 0 {
 		lastIsWait = contains(sb.List[len(sb.List)-1], wait)
 	}
-	f.b("rgUnregisterDeferredAfterWait", unregDefer != nil && wait != nil && lastIsWait && before(ins, unregDefer), s.pos(unregDefer))
+	f.b("rgUnregisterDeferredAfterWait", unregDefer != nil && wait != nil && lastIsWait && directStmt(sb, wait) && before(ins, unregDefer), s.pos(unregDefer))
 	// both loops are started after registration, each with wg.Add(1) / defer wg.Done()
 	loops := 0
 	afterReg := true
